@@ -67,6 +67,24 @@
                 }
             }
         }}}}
+        // several definitions per class, in every interleaving of two classes: each class keeps ALL its definitions, in file order
+        let defs = [("KANJI", 1i16, 100i16), ("ALPHA", 2, 200), ("KANJI", 3, 300), ("ALPHA", 4, 400), ("KANJI", 5, 500)];
+        for mask in 1u32..32 {
+            let chosen: Vec<&(&str, i16, i16)> = defs.iter().enumerate().filter(|(i, _)| mask & (1 << i) != 0).map(|(_, d)| d).collect();
+            cases += 1;
+            let text: String = chosen.iter().map(|(c, id, cost)| format!("{},{},{},{},名詞,普通名詞,一般,*,*,*\n", c, id, id, cost)).collect();
+            let mut grammar = build_mock_grammar(&bytes);
+            match MeCabOovPlugin::read_oov(std::io::Cursor::new(text.as_bytes()), &cats, &mut grammar, UserPosMode::Allow) {
+                Err(e) => if failures.len() < 20 { failures.push(format!("unk.def {:?} is refused: {:?}", text, e)); },
+                Ok(m) => {
+                    for (name, key) in [("KANJI", CategoryType::KANJI), ("ALPHA", CategoryType::ALPHA)] {
+                        let want: Vec<(i16, i16, i16)> = chosen.iter().filter(|d| d.0 == name).map(|d| (d.1, d.1, d.2)).collect();
+                        let got: Vec<(i16, i16, i16)> = m.get(&key).map(|v| v.iter().map(|o| (o.left_id, o.right_id, o.cost)).collect()).unwrap_or_default();
+                        if got != want && failures.len() < 20 { failures.push(format!("unk.def {:?}: class {} has the definitions (left, right, cost) {:?}, the file gives {:?}", text, name, got, want)); }
+                    }
+                }
+            }
+        }
         println!("verif_oracle_unk_def_lines: {} lines, {} failures", cases, failures.len());
         for f in failures.iter().take(5) { println!("FAILING INPUT: {}", f); }
         assert!(failures.is_empty());
